@@ -1,6 +1,6 @@
 ENGINES = [
     {"name": "E-ENUM", "path": "harness/runner harness/circgen harness/bitsim harness/drbg",
-     "serves_properties": ["C01","C06","C13"],
+     "serves_properties": ["C01","C06","C13","C14"],
      "kind_free_text": "bounded-exhaustive enumeration (odometers over finite alphabets, simplest first) of cases run on the real code and compared with an independent reference; 16 worker processes; violations confirmed by 3 replays"},
 ]
 NOTES = ("Every check rebuilds its driver against /repo's current working tree (go build with replace => /repo). "
@@ -20,4 +20,8 @@ CHECKS = {
    technique="bounded-exhaustive enumeration of type shapes x boundary values x spellings x Go value types against a reference bit packer and its inverse",
    text="All scalar widths (quick: 19 switch widths, thorough: 1..130) x boundary alphabet x decimal/hex/binary spellings x every Go integer type that can hold the type; arrays and slices with 0..4 elements incl. short literals; compounds of 2-3 members with every (all-ones member, zero member) pair. Oracle per bit below the declared size: Parse == Set == reference packer; InputSizes == Sizes == bits needed (non-negative values); Result is the inverse, repeatable and leaves its argument unchanged.",
    note="Reference packer is the specification (LE two's complement, declaration order, zero fill). Hex-only array literals; negative size inference recorded, not judged."),
+ "C14": dict(engine="E-FAULT", level="fault_enumeration",
+   technique="exhaustive fault enumeration: every truncation, bit flip, byte deletion/duplication, field splice and appended record of valid circuit files, plus bounded-exhaustive round trips",
+   text="Round trip of every circuit with <=3 inputs and <=3 gates (quick: <=2..3 gates) in both formats, compiled programs with array/struct I/O, synthetic headers (names of 0..70000 bytes, up to 400 compound members): same gates, counts, signature, bytes and function. Malformed: for 11-15 seed files per run every truncation length, every single-bit flip, every one-byte deletion/duplication, appended records/junk, every offset as a u32 set to 5 values (native) and every token replaced by 9 values, every line deleted/duplicated (Bristol). Oracle: error, or a circuit whose gate inputs are defined before use and whose wires are all assigned; no panic, no hang (60 s), risky cases in a memory-capped child process.",
+   note="Inputs whose declared sizes exceed 10^6 are skipped by a tolerant pre-scan written in the harness (the property's precondition)."),
 }
